@@ -306,7 +306,7 @@ class Algebra:
                         return out
         return [((), self.rewrite(e))]
 
-    def inline_private(self, name, args, targs=()):
+    def inline_private(self, name, args, targs=(), any_vis=False):
         """A call to a private, loop-free helper of the same crate reads as the helper's own case
         table over the arguments (extracting a function does not change what a caller returns)."""
         if self.depth >= 3:
@@ -316,7 +316,10 @@ class Algebra:
         if not raws or len(raws) != 1:
             return None
         raw = raws[0]
-        if raw["kind"] not in ("Fn", "AssocFn") or not str(raw.get("vis", "")).startswith("Restricted") or len(raw["blocks"]) > 40:
+        private = str(raw.get("vis", "")).startswith("Restricted")
+        # (any_vis: inherent fns and free fns only – a trait method is an interface, not a definition)
+        inherent = not raw.get("trait_default_of") and not name.startswith("<") and len(raw["blocks"]) <= 24
+        if raw["kind"] not in ("Fn", "AssocFn") or not (private or (any_vis and inherent)) or len(raw["blocks"]) > 40:
             return None
         cb = Body(raw, self.crate)
         if cb.derived or cb.arg_count != len(args):
@@ -469,7 +472,46 @@ class Algebra:
                             cur.add(a)
                         if not bad:
                             out.append((frozenset(cur), v))
-        return self._resolve_helper_results(out)
+        return self._expand_alternatives(self._resolve_helper_results(out))
+
+    def _expand_alternatives(self, rows, fuel=3):
+        """atoms that can be read through a definition (`is_enum(empty_from(x))`, `helper(x).is_some()`,
+        `a.zip(b).is_some()`) are replaced by what they mean, splitting the row where that is a disjunction"""
+        if fuel == 0 or self.depth > 0:
+            return rows
+        out, changed = [], False
+        for conds, v in rows:
+            target = None
+            for at in conds:
+                if at[0][0] in ("effect", "pc-of"):
+                    continue
+                alts = S.predicate_alternatives(self.crate, at)
+                if alts:
+                    target = (at, alts)
+                    break
+            if target is None:
+                out.append((conds, v))
+                continue
+            changed = True
+            at, alts = target
+            rest = frozenset(c for c in conds if c != at)
+            for alt in alts[:8]:
+                cur, bad = set(rest), False
+                for (x, y) in alt:
+                    a_ = S.normalise_atom(x, y) if isinstance(y, bool) else (x, y)
+                    f_ = S.fold_atom(a_[0], a_[1])
+                    if f_ is False:
+                        bad = True
+                        break
+                    if f_ is True:
+                        continue
+                    if any(x2 == a_[0] and S._contradict(y2, a_[1]) for (x2, y2) in cur):
+                        bad = True
+                        break
+                    cur.add(a_)
+                if not bad:
+                    out.append((frozenset(cur), v))
+        return self._expand_alternatives(out, fuel - 1) if changed else out
 
     def _helper_calls(self, e, acc):
         """private-helper calls whose result is looked into: `(h(..) as Ok).0`, `is_ok(h(..))`"""
@@ -482,7 +524,7 @@ class Algebra:
             inner = e[2][0]
         if inner is not None and inner[0] == "call" and isinstance(inner[1], str) and inner not in acc:
             raws = self.crate.get("_raw_by_key", {}).get(inner[1])
-            if raws and len(raws) == 1 and raws[0]["kind"] in ("Fn", "AssocFn") and str(raws[0].get("vis", "")).startswith("Restricted"):
+            if raws and len(raws) == 1 and raws[0]["kind"] in ("Fn", "AssocFn") and (S.DEEP or str(raws[0].get("vis", "")).startswith("Restricted")):
                 acc.append(inner)
         for x in e:
             if isinstance(x, tuple):
@@ -503,7 +545,7 @@ class Algebra:
                 self._helper_calls(ee, acc)
             inl = None
             for c in acc:
-                inl = self.inline_private(c[1], c[2], c[3] if len(c) > 3 else ())
+                inl = self.inline_private(c[1], c[2], c[3] if len(c) > 3 else (), any_vis=S.DEEP)
                 if inl and all(hv[0] == "agg" and hv[1] in (OK, ERR, SOME, NONE) for _, hv in inl):
                     break
                 inl = None
@@ -635,12 +677,18 @@ def find_call(e, name):
     return None
 
 
-def cases(ctx, body):
-    """[(sorted atom strings, rendered value)] of a function body"""
+def cases(ctx, body, deep=False):
+    """[(sorted atom strings, rendered value)] of a function body; deep=True also reads public
+    inherent fns of the crate by their definition where their result is looked into"""
     alg = Algebra(body.crate)
     s, _ = ctx.sym(body)
     out = []
-    for conds, v in alg.body_cases(body):
+    S.DEEP = bool(deep)
+    try:
+        rows = alg.body_cases(body)
+    finally:
+        S.DEEP = False
+    for conds, v in rows:
         row = (sorted(_atom(e, val, s) for e, val in conds), S.show(S.strip_transparent(v), s))
         if row not in out:
             out.append(row)
